@@ -260,6 +260,48 @@ pub fn run(args: &Args, rep: &mut Report) {
     rep.sample(|| ops_json(&[(vec![(360, 840), (360, 570)], RuleKind::Open)]));
     rep.sample(|| ops_json(&[(vec![(0, 1440)], RuleKind::Open), (vec![(570, 840), (360, 570)], RuleKind::Closed)]));
 
+    // 3b. size ladder: K = 1..64, 96, 128, 200, 360, 720 ranges in one from_ranges call (disjoint,
+    //     touching, staggered overlaps in shuffled order) and K successive additions (nested, alternating
+    //     kinds; many-range operand then a whole-day operand and the reverse)
+    {
+        let mut ks: Vec<usize> = (1..=64).collect();
+        ks.extend([96, 128, 200, 360, 720]);
+        let mut idx = 0u64;
+        for k in ks {
+            let w = (1440 / (2 * k)).max(1) as u16;
+            let kk = k as u16;
+            let disjoint: Vec<(u16, u16)> = (0..kk).map(|i| (i * 2 * w, i * 2 * w + w)).filter(|r| r.1 <= 1440).collect();
+            let touching: Vec<(u16, u16)> = (0..kk).map(|i| (i * w, (i + 1) * w)).filter(|r| r.1 <= 1440).collect();
+            let mut staggered: Vec<(u16, u16)> = (0..kk).map(|i| (i * w, (i * w + 3 * w).min(1440))).filter(|r| r.0 < 1440).collect();
+            let mut r = Rng::new(0x51e, 0, k as u64);
+            r.shuffle(&mut staggered);
+            let nested: Vec<Op> = (0..kk.min(719)).map(|i| (vec![(i, 1440 - i)], KINDS[i as usize % 3])).collect();
+            let pairs: Vec<Op> = (0..kk.min(360)).map(|i| (vec![(i * 2, i * 2 + 1), (1439 - i * 2, 1440 - i * 2)], KINDS[(i as usize + 1) % 3])).collect();
+            let cases: Vec<Vec<Op>> = vec![
+                vec![(disjoint.clone(), RuleKind::Open)],
+                vec![(touching.clone(), RuleKind::Unknown)],
+                vec![(staggered.clone(), RuleKind::Open)],
+                vec![(disjoint.clone(), RuleKind::Open), (vec![(0, 1440)], RuleKind::Closed)],
+                vec![(vec![(0, 1440)], RuleKind::Unknown), (disjoint.clone(), RuleKind::Open), (staggered.clone(), RuleKind::Closed)],
+                vec![(disjoint.clone(), RuleKind::Open), (touching.clone(), RuleKind::Open)],
+                nested,
+                pairs,
+            ];
+            for ops in cases {
+                idx += 1;
+                if (idx - 1) % args.of.max(1) != args.worker {
+                    continue;
+                }
+                rep.count("size_ladder_sequences");
+                rep.max("size_ladder_max_ranges", k as u64);
+                run_case(rep, &ops);
+                if rep.full() {
+                    return;
+                }
+            }
+        }
+    }
+
     // 4. random: <= 8 operations, <= 6 ranges each, minute-granular
     let n = args.cases(400_000, 6_000_000);
     for k in 0..n {
